@@ -261,7 +261,7 @@ void backend () {
   if (setjmp (econ.context))
     restore_context (&econ);
 
-  if (MAIN_OPTION(console_mode))
+  if (MAIN_OPTION(console_mode) && !(all_users && all_users[0]))
     init_console_user(0);
 
   while (1)
